@@ -91,7 +91,11 @@ def has_ml_scores(mm):
         # this ML score. But this use case is basically non-existent and
         # the performance impact is probably negligible.
         candidates = AncillaryFeature.get_instances(feat)
-        idlist.append((feat, [c.hash(mm) for c in candidates]))
+        # Temporary features can be replaced by the user at any time, so
+        # their data must be hashed as well (accessing them does not
+        # trigger any ancillary feature computation).
+        tdata = mm[feat] if feat in mm._usertemp else None
+        idlist.append((feat, tdata, [c.hash(mm) for c in candidates]))
     return idlist
 
 
